@@ -46,7 +46,7 @@ func Profiles(prop string) Profile {
 	case "C10":
 		return Profile{Prop: prop, PunchPct: 30, W: cp(map[string]int{"write": 50, "reopen": 8}), MinOps: 15, MaxOps: 50, DeepPct: 0}
 	case "C12":
-		return Profile{Prop: prop, PunchPct: 30, W: cp(map[string]int{"write": 20, "usnap": 10, "asnap": 10, "remove": 8, "rawremove": 4, "markremoved": 4, "revert": 6, "reopen": 8, "resize": 3}), MinOps: 15, MaxOps: 45, DeepPct: 20}
+		return Profile{Prop: prop, PunchPct: 30, W: cp(map[string]int{"write": 20, "usnap": 10, "asnap": 10, "remove": 8, "rawremove": 9, "markremoved": 4, "revert": 6, "reopen": 8, "resize": 3}), MinOps: 15, MaxOps: 45, DeepPct: 20}
 	default: // C01
 		return Profile{Prop: prop, PunchPct: 50, W: cp(nil), MinOps: 15, MaxOps: 60, DeepPct: 25, RawRemove: true}
 	}
